@@ -153,4 +153,32 @@ var specs = []CheckSpec{
 		Assumptions: append([]string{"times are whole seconds within +-20 days of now (no Duration saturation)", "queries the incremental solver does not decide in 1.5 s (ParseInt overflow checks on symbolic digits) are decided by a stand-alone portfolio (z3 4.8.12, z3 5.1.0, cvc5), 120 s cap"}, commonAssumptions...),
 		Outside:     []string{"more than two files per subdirectory; interplay between subdirectories (the other 255 are empty)", "last-trim records in the future: only the safety clauses are asserted", "sub-second timestamps"},
 	},
+	{
+		ID: "C06", Pkg: "lockedfile",
+		Harnesses: []HarnessSpec{
+			{Fn: "VerifC06OpenFile", Quick: map[string]int{"R": 2}, Thorough: map[string]int{"R": 4}, Witness: []string{"opened", "open-failed", "lock-failed", "write-lock", "read-lock", "truncated"}},
+			{Fn: "VerifC06API", Quick: map[string]int{}, Thorough: map[string]int{}, Witness: []string{"api", "mutex"}},
+		},
+		Bounds: map[string]string{
+			"quick":    "per-holder protocol: every flag word below 2^21 with a valid access mode (all other bits symbolic), file present or absent, 0..2 EINTR returns from flock followed by success or ENOLCK; all seven entry points (Open, Create, Edit, Read, Write, Transform, Mutex.Lock)",
+			"thorough": "0..4 EINTR returns",
+		},
+		Stubs: []string{"os.OpenFile, (*os.File).{Fd,Name,Stat,Truncate,Close,Read,WriteAt,ReadFrom}", "syscall.Flock: scripted results, every call recorded with its descriptor, mode and position in the operation log"},
+		Assumptions: append([]string{"assume-guarantee: Linux flock(2) grants LOCK_EX on an open file description only while no other description of the file holds a lock, LOCK_SH only while none holds LOCK_EX, and keeps the lock until LOCK_UN or the last close. The check establishes the per-holder obligations on the real code (right mode for every flag word, lock on the opened descriptor before any content access, returned File <=> lock granted and still held, failure paths close the descriptor, Close unlocks the same descriptor exactly once strictly before closing it); mutual exclusion across holders follows from these obligations and the kernel contract", "access mode 3 (O_WRONLY|O_RDWR) is not a valid access mode and is excluded"}, commonAssumptions...),
+		Outside:     []string{"whether the kernel honours the flock contract; NFS; the fcntl/plan9/windows lock files", "the sync.Mutex inside lockedfile.Mutex (goroutine-level, redundant)", "the cross-holder composition itself is by the stated argument, not mechanised"},
+	},
+	{
+		ID: "C07", Pkg: "lockedfile",
+		Harnesses: []HarnessSpec{
+			{Fn: "VerifC07Sequential", Quick: map[string]int{"L": 3}, Thorough: map[string]int{"L": 5}, Witness: []string{"read", "write", "grow", "shrink"}},
+			{Fn: "VerifC07TransformFault", Quick: map[string]int{"L": 3}, Thorough: map[string]int{"L": 5}, Witness: []string{"user-fails", "write-step-fails", "truncate-fails", "close-fails"}},
+		},
+		Bounds: map[string]string{
+			"quick":    "old and new contents of <= 3 symbolic bytes each (every length relation); Read under arbitrary short reads; one failure at any file operation of Transform (a failing WriteAt leaves any prefix) or in the user function",
+			"thorough": "contents <= 5 bytes",
+		},
+		Stubs: []string{"as C06"},
+		Assumptions: append([]string{"linearizability across goroutines and processes is by assume-guarantee: C06 gives exclusion of writers and sharing among readers; this check establishes that each operation, run alone under its lock, reads or publishes exactly the complete contents and that every content access lies inside the held interval (asserted in C06's API harness); the two-phase-locking composition argument is stated, not mechanised"}, commonAssumptions...),
+		Outside:     []string{"two simultaneous faults (rollback is best-effort)", "durability across power loss", "a failing Close after a successful write (not a write step: the new contents are published and the error is returned)"},
+	},
 }
